@@ -190,7 +190,7 @@ func runOne(p *symgo.Program, cfg Config, opt RunOpts) (o Outcome) {
 		opt.Post(&o, in)
 	}
 	for _, v := range in.Discharge() {
-		o.Obls = append(o.Obls, OblResult{Kind: v.Obl.Kind, Tag: v.Obl.Tag, Pos: v.Obl.Pos, Result: v.Result, Model: v.Model, Secs: v.Secs})
+		o.Obls = append(o.Obls, OblResult{Kind: v.Obl.Kind, Tag: v.Obl.Tag, Pos: v.Obl.Pos, Result: v.Result, Model: v.Model, Secs: v.Secs, Confirmed: v.Confirmed})
 	}
 	if len(sol.Errors) > 0 {
 		o.Err += " solver-errors: " + strings.Join(sol.Errors[:min(3, len(sol.Errors))], "; ")
